@@ -48,18 +48,22 @@ type StepInfo struct {
 }
 
 type ViolationInfo struct {
-	Steps    [][]StepInfo // per thread: shared-access steps (statement lines) in program order
-	Quota    [][]int      // per thread, per round: number of steps
-	Aligned  bool         // no context switch falls inside a statement
-	Also     []string     // other obligations violated in the same model
-	Finished []bool       // per thread: ran to completion in the model
-	ID       string
-	Where    string
-	Model    map[string]uint64
-	Inputs   []InputVal
-	Sched    [][]uint64 // per thread cs positions
-	Trace    []string
-	Known    string
+	Steps      [][]StepInfo // per thread: shared-access steps (statement lines) in program order
+	Quota      [][]int      // per thread, per round: number of steps
+	Aligned    bool         // no context switch falls inside a statement
+	Also       []string     // other obligations violated in the same model
+	Finished   []bool       // per thread: ran to completion in the model
+	HookFile   string       // stall-hook harnesses: the adversary ran before the HookOcc-th execution of this line
+	HookLine   int
+	HookOcc    int
+	HookAtomic bool
+	ID         string
+	Where      string
+	Model      map[string]uint64
+	Inputs     []InputVal
+	Sched      [][]uint64 // per thread cs positions
+	Trace      []string
+	Known      string
 }
 
 type InputVal struct {
@@ -304,6 +308,14 @@ func RunCase(prog *ssa.Program, pkg *ssa.Package, harness string, shape map[stri
 					v.Sched = append(v.Sched, row)
 				}
 				v.Trace = e.renderTrace(m)
+				for _, hf := range e.HookFires {
+					if smt.Eval(hf.G, m, memo) == 1 {
+						v.HookFile, v.HookLine = parseWhere(hf.Where)
+						v.HookOcc = hf.Occ
+						v.HookAtomic = hf.Atomic
+						v.Trace = append(v.Trace, fmt.Sprintf("adversary ran before execution %d of the access at %s", hf.Occ, hf.Where))
+					}
+				}
 				if len(e.ThreadsDone) > 0 {
 					e.scheduleSteps(v, m, conds[pick], check)
 				}
@@ -329,6 +341,7 @@ func RunCase(prog *ssa.Program, pkg *ssa.Package, harness string, shape map[stri
 		solveGroup(valIdx)
 	}
 	// 2. covers
+	infeasible := false
 	res.Covers = len(e.Covers)
 	for _, cv := range e.Covers {
 		r, m := check([]smt.Term{c.And(cv.Cond, reached(cv.Thread, cv.EvIdx))}, mvars)
@@ -361,6 +374,8 @@ func RunCase(prog *ssa.Program, pkg *ssa.Package, harness string, shape map[stri
 		} else {
 			if strings.HasPrefix(cv.ID, "opt:") {
 				res.Covers--
+			} else if e.InfeasibleOK {
+				infeasible = true
 			} else {
 				inconclusive = "cover point unreachable (vacuous harness): " + cv.ID
 			}
@@ -401,6 +416,10 @@ func RunCase(prog *ssa.Program, pkg *ssa.Package, harness string, shape map[stri
 	}
 	res.Nodes = c.NumNodes()
 	switch {
+	case infeasible && len(res.Violations) == 0:
+		// the harness allows this shape assignment to be infeasible (e.g. an operation sequence
+		// that cannot happen): it is not part of the explored space
+		res.Verdict = "pruned"
 	case len(res.Violations) > 0:
 		res.Verdict = "violation"
 	case inconclusive != "":
